@@ -4,6 +4,7 @@
 #include <cocls/future.h>
 #include <cocls/async.h>
 #include <memory>
+#include <array>
 #include <thread>
 #include <vector>
 
@@ -90,6 +91,13 @@ void submit(cocls::thread_pool &pool, int kind, int j, int stop_mode, std::vecto
     case 4: {
         auto tok = std::make_shared<Token>(j);
         if (stop_mode == 2 && j == 0) pool.run_detached([&pool, j, tok] { ran(pool, j); do_stop(pool); });   // stop() from a job on a worker
+        else if (j % 3 == 1) {      // closure that exactly fills the inline space of the pool's function object (8 + 8 + 16 + 24 bytes + vptr = 64)
+            std::array<long, 3> pad{j * 100L, j * 100L + 1, j * 100L + 2};
+            pool.run_detached([&pool, j, tok, pad] { if (pad[0] != j * 100L || pad[2] != j * 100L + 2) dsim::fail("C11.closure_damaged", "captured state of job %d changed on its way through the pool", j); ran(pool, j); });
+        } else if (j % 3 == 2) {    // closure too large for the inline space: stored on the heap by the function object
+            std::array<long, 12> pad; for (int k = 0; k < 12; k++) pad[k] = j * 100L + k;
+            pool.run_detached([&pool, j, tok, pad] { for (int k = 0; k < 12; k++) if (pad[k] != j * 100L + k) dsim::fail("C11.closure_damaged", "captured state of job %d changed on its way through the pool", j); ran(pool, j); });
+        }
         else pool.run_detached([&pool, j, tok] { ran(pool, j); });
         dsim::cell_set(SUBMITTED + j, 1);
         break; }
